@@ -467,6 +467,9 @@ func checkIdempotent(st *projState, res runResult, spec runSpec) {
 	}
 	t1, t2 := res.Steps[0].Tree, res.Steps[1].Tree
 	for _, f := range differingFiles(t1, t2) {
+		if spec.Plain && st.orderDep[f] {
+			continue // the two steps drew different random orders for a file already reported as order dependent
+		}
 		minus, plus := lineDiff(t1[f], t2[f])
 		fp := common.Hash(minus, plus)
 		sig := fmt.Sprintf("not-idempotent:%s:%s:%s", st.p.Name, f, fp)
